@@ -7,6 +7,10 @@ package mongodb
 // A datatype document as the service layer relies on it.
 //@ pred docWF(d *schema.DatatypeDoc) = d.RWClients != nil && d.ROClients != nil && (forall c string :: (c in d.RWClients ==> d.RWClients[c] != nil && d.RWClients[c].CP != nil) && (c in d.ROClients ==> d.ROClients[c] != nil && d.ROClients[c].CP != nil))
 
+// the checkpoints recorded in a datatype document are objects of their own (decoded from BSON):
+// never the checkpoint object of the request being served
+//@ pred docSep(d *schema.DatatypeDoc, cp *model.CheckPoint) = forall c string :: (c in d.RWClients ==> d.RWClients[c].CP != cp) && (c in d.ROClients ==> d.ROClients[c].CP != cp)
+
 // Repository methods used by the push-pull handler. Trusted at this level: each wraps one
 // MongoDB driver command (FindOne/Find/InsertMany/UpdateOne) and decodes BSON; the filter
 // construction inside them is under contract separately (C17).
@@ -15,6 +19,7 @@ package mongodb
 //@   mode math
 //@   ensures result1 != nil ==> result0 == nil
 //@   ensures result0 != nil ==> fresh(result0) && result0.Key == key && result0.CollectionNum == collectionNum && docWF(result0)
+//@   ensures result0 != nil ==> (forall c string :: (c in result0.RWClients ==> fresh(result0.RWClients[c].CP)) && (c in result0.ROClients ==> fresh(result0.ROClients[c].CP)))
 //@   modifies schema.DatatypeDoc.*, schema.SubscribedClientDoc.*, map[string]*schema.SubscribedClientDoc, alloc
 
 //@ func (*MongoCollections).GetDatatype
@@ -22,6 +27,7 @@ package mongodb
 //@   mode math
 //@   ensures result1 != nil ==> result0 == nil
 //@   ensures result0 != nil ==> fresh(result0) && result0.DUID == duid && docWF(result0)
+//@   ensures result0 != nil ==> (forall c string :: (c in result0.RWClients ==> fresh(result0.RWClients[c].CP)) && (c in result0.ROClients ==> fresh(result0.ROClients[c].CP)))
 //@   modifies schema.DatatypeDoc.*, schema.SubscribedClientDoc.*, map[string]*schema.SubscribedClientDoc, alloc
 
 // Ghost view of the operations collection for the datatype being served: G.stored is the number
